@@ -5,6 +5,7 @@ import CbiVerif.Lemmas.MacroDefine
 import CbiVerif.Lemmas.MacroObjSpec
 import CbiVerif.Lemmas.MacroPlainCheck
 import CbiVerif.Spec.Prosser
+import CbiVerif.Props.C03FunLike
 /-! # C03 — macro definition and expansion conform to the C standard
 
 Model `M` = `CbiVerif.MX.cbiExpand` (the step machine the driver executes), spec `S` = `CbiVerif.Spec.Prosser.prosser`.
@@ -21,9 +22,13 @@ Model `M` = `CbiVerif.MX.cbiExpand` (the step machine the driver executes), spec
 * `defined_operator_plain/_paren`, `defined_never_expands` — every table;
 * `cmdline_define_equiv_*` — `-DNAME`, `-DNAME=v`, `-D'NAME(args)=v'` ≡ the `#define` line (token lists).
 
-Not proved (covered by correspondence + Prosser spec + gcc oracle only): function-like expansion (`funlike_simple_partial`
-of the design is NOT delivered), `#`, `##`; termination for tables with function-like macros (the model is total by fuel,
-the real code is observed under a time limit). -/
+Function-like macros without `#` / `##` / variadic parameters: `Props/C03FunLike.lean` (`funlike_partial`: model = recursive
+reference `Ref` on the decidable fragment `fitsb`; `terminates_funlike_partial`, `no_backstop_funlike`; `FunLikeFull` = what
+remains open).
+
+Not proved (covered by correspondence + Prosser spec + gcc oracle only): `#`, `##`, variadic parameters; function-like calls
+completed by tokens outside the token list that holds the macro name; the function-like reference against `Spec.Prosser`;
+termination outside the proved fragments (the model is total by fuel, the real code is observed under a time limit). -/
 namespace CbiVerif.C03
 open CbiVerif.PP CbiVerif.MX
 
@@ -293,6 +298,13 @@ theorem D35_fixed : expandText ["None=1"] [] "None" = .ok ["1"] ∧ specText ["N
 /-- D36 (repaired): a variadic macro that does not name its variadic parameter can be called -/
 theorem D36_fixed : expandText [] ["V(...) 1"] "V(2) V() V(1,2)" = .ok ["1", "1", "1"] ∧
     specText ["V(...) 1"] "V(2) V() V(1,2)" = some ["1", "1", "1"] := by
+  decide +kernel
+
+/-- D43 (repaired): the arguments beyond the named parameters of a variadic macro belong to `__VA_ARGS__`: when the
+    replacement list does not use it they are not macro-expanded, so a call in them that could not be expanded (`H()` for a
+    two-parameter `H`) does no harm, exactly as for an unused named parameter -/
+theorem D43_fixed : expandText [] ["V(x,...) x", "H(a,b) 1"] "V(2, 3, H())" = .ok ["2"] ∧
+    specText ["V(x,...) x", "H(a,b) 1"] "V(2, 3, H())" = some ["2"] := by
   decide +kernel
 
 /-- D37 (repaired): a string literal whose content is a parameter name is not a parameter -/
